@@ -54,6 +54,7 @@ def determinism(ids) -> int:
             "hashseed-12345": _digests(pid, runs, {"VERIF_SEED": seed, "VERIF_HASHSEED": "12345"}, 16),
             "workers-3": _digests(pid, runs, {"VERIF_SEED": seed}, 3),
             "cwd-/": _digests(pid, runs, {"VERIF_SEED": seed}, 5, cwd="/"),
+            "reverse-order": _digests(pid, runs, {"VERIF_SEED": seed, "VERIF_REVERSE": "1"}, 7),
         }
         n = sum(len(v) for v in base[1].values())
         ok = n > 0 and base[0] in (0, 1)
@@ -64,7 +65,7 @@ def determinism(ids) -> int:
                 print(f"DETERMINISM-FAIL {pid} variant={name} rc={rc} vs {base[0]} differing_runs={diff[:10]} ({len(diff)})")
                 if not d:
                     print(tail)
-        print(f"determinism {pid}: {'ok' if ok else 'FAIL'} ({n} run digests x 5 executions, base rc={base[0]})")
+        print(f"determinism {pid}: {'ok' if ok else 'FAIL'} ({n} run digests x 6 executions, base rc={base[0]})")
         if not ok and n == 0:
             print(base[2])
         bad += 0 if ok else 1
@@ -97,7 +98,7 @@ def sensitivity(ids) -> int:
         for mut in MUTANTS.get(pid, []):
             root = tempfile.mkdtemp(prefix="pverif-mut-", dir=base)
             try:
-                shutil.copytree("/repo/src", os.path.join(root, "src"), ignore=shutil.ignore_patterns("__pycache__"))
+                shutil.copytree("/repo/src", os.path.join(root, "src"))  # copy2 keeps mtimes, so the numba on-disk cache stays valid for unmutated files
                 _apply_mutation(os.path.join(root, "src"), mut)
                 env = dict(os.environ)
                 env["VERIF_POREPY_SRC"] = os.path.join(root, "src")
